@@ -39,6 +39,10 @@ func main() {
 
 	opt := newDefaultOptions()
 	opt.WorkDir = *workDir
+	// Redis commands are read-modify-write transactions issued by concurrent
+	// connections (INCR, SET NX/XX, DEL): without conflict detection two of
+	// them can commit on the same snapshot and one update is lost.
+	opt.DetectConflicts = true
 	if opt.MaxBatchCount <= 0 {
 		opt.MaxBatchCount = int64(opt.WriteBatchMaxCount)
 		if opt.MaxBatchCount <= 0 {
